@@ -9,7 +9,7 @@ from .. import harness as H
 from .. import wire as W
 from ..runner import run_monitored
 
-FAMILIES = ["counters", "tos-opcode", "session", "mutated", "noise", "flow", "dse-inflated", "esp32"]
+FAMILIES = ["counters", "tos-opcode", "session", "mutated", "noise", "flow", "dse-inflated", "esp32", "capacity"]
 MUST_REACH = ["parseEmit", "parseQuery", "parseProbe", "parseQueryLargeTlv", "answerHello", "sendProbeMsg",
               "sendLargeTlvResponse", "derive_session_event", "automata_tick", "switch_state_mapping",
               "switch_state_session", "session_table_add", "band_update_stats", "lltd_esp32_handle_frame"]
@@ -63,6 +63,24 @@ def make_scenarios(ctx, count):
         infl = fam == "dse-inflated"
         if fam == "counters":
             frames = counter_frames(rng, net, mtu)
+        elif fam == "capacity":
+            # observation record beyond one QueryResp, partial drains with new probes arriving in between, full-size Emits
+            m = rng.randrange(len(net.mappers))
+            cap = G.cap_qresp(mtu)
+            frames = [G.f_discover(rng, net, m=m, tos=0)]
+            srcs = G.distinct_macs(rng, 3 * cap + 40, avoid=[net.own])
+            k = 0
+            for rnd in range(3):
+                for _ in range(rng.choice([cap - 1, cap + 1, cap + 7, 2 * cap + 3])):
+                    if k < len(srcs):
+                        frames.append(W.probe(net.own, srcs[k], net.own, rng.choice(net.strangers), train=rng.random() < 0.5))
+                        k += 1
+                frames.append(G.f_query(rng, net, m))
+                if rng.random() < 0.5:
+                    frames.append(G.f_query(rng, net, m))
+            frames.append(G.f_emit(rng, net, m, n=max(1, G.cap_emit(mtu)))[0])
+            frames.append(G.f_reset(rng, net, m=m))
+            frames = frames[:700]
         elif fam == "tos-opcode":
             frames = []
             for _ in range(60):
